@@ -1122,6 +1122,21 @@ impl Core {
 							message
 						);
 
+						// Only the newest segment can end in a torn / damaged tail. Damage in an
+						// older segment lies in the middle of the log: truncating it and replaying
+						// the later segments would drop commits that later commits were built on.
+						let newest = crate::wal::list_segment_ids(wal_path, Some("wal"))?
+							.last()
+							.copied()
+							.unwrap_or(0);
+						if (segment_id as u64) < newest {
+							return Err(Error::WalCorruption {
+								segment_id,
+								offset,
+								message: format!("{message} (not in the newest segment, not repairable)"),
+							});
+						}
+
 						// Attempt repair
 						if let Err(repair_err) = repair_corrupted_wal_segment(wal_path, segment_id)
 						{
